@@ -156,7 +156,7 @@ Update(h) ==
          q == SerJs(h, s1) IN
      IF early
        THEN /\ Advance(h, [hd[h] EXCEPT !.cfg = c1, !.js = s1]) /\ Raise
-            /\ Feed(<<"Update", h>>, <<EvCop(h, "update", IF s1.ver # jsVerF THEN "JobStatusVersionMismatch" ELSE "ConfigVersionMismatch",
+            /\ Feed(<<"Update", h>>, <<EvCop(h, "update", IF c1.ver # cfgVerF THEN "ConfigVersionMismatch" ELSE "JobStatusVersionMismatch",
                                             FALSE, TRUE, TRUE, FALSE)>>)
             /\ UNCHANGED <<cfg, cfgVerF, js, jsVerF>>
      ELSE IF r.exc # ""
